@@ -1,8 +1,9 @@
 SPECIFICATION FairSpec
 CONSTANTS MaxN = 2
-          WrapperConsumes = TRUE
+          WrapperConsumes = FALSE
           ReleaseWakesWaiter = TRUE
-          PauseCoversEncode = FALSE
+          PauseCoversEncode = TRUE
 INVARIANT TypeOK
 INVARIANT C07_NeverSwallowed
+PROPERTY C07_Answered
 CHECK_DEADLOCK FALSE
